@@ -3,11 +3,11 @@
 //! Haystack Timezone configured to work with the full IANA database
 //! provided by chrono_tz.
 
-use chrono::{DateTime as StdDateTime, FixedOffset, TimeZone, Utc};
+use chrono::{DateTime as StdDateTime, Datelike, FixedOffset, TimeZone, Utc};
 
 use chrono_tz::{OffsetName, Tz, UTC};
 
-use crate::timezone::fixed_timezone;
+use crate::timezone::{fixed_timezone, rfc3339_offset};
 
 /// DateTime type that supports timezones
 pub type DateTimeType = StdDateTime<Tz>;
@@ -31,7 +31,14 @@ pub fn make_date_time_with_tz(
     tz: &str,
 ) -> Result<DateTimeType, String> {
     if let Ok(tz) = find_timezone(tz) {
-        Ok(datetime.with_timezone(&tz))
+        let value = datetime.with_timezone(&tz);
+        // Dates are written with a four digit year. Within hours of the years 0000 and 9999
+        // the local date in `tz` can fall outside them, and could not be encoded again.
+        let written = value.with_timezone(&rfc3339_offset(value.offset()));
+        if !(0..=9999).contains(&written.year()) {
+            return Err(format!("Date time out of range in timezone {tz}"));
+        }
+        Ok(value)
     } else {
         Err(format!("Can't create datetime with timezone {tz}"))
     }
